@@ -22,7 +22,7 @@ Lemma deposit_internal_frame c s au r a sh f o s' : deposit_internal c s au r a 
   now s' = now s /\ (forall x y, lu_of (asset s') x y = lu_of (asset s) x y) /\
   (forall x y, lu_of (share s') x y = lu_of (share s) x y).
 Proof.
-  unfold deposit_internal. intros H. bsplit H a1 E1. bsplit H s1 E2. inversion H; subst s'; clear H.
+  unfold deposit_internal. intros H. bsplit H uc Ec. bsplit H a1 E1. bsplit H s1 E2. inversion H; subst s'; clear H.
   apply update_mint in E2. destruct E2 as (_ & _ & ->). cbn [now asset share].
   split; [reflexivity|]. split; [|intros; reflexivity].
   destruct (N.eqb o f).
@@ -35,7 +35,7 @@ Lemma withdraw_internal_frame c s r ow a sh o s' : withdraw_internal c s r ow a 
   now s' = now s /\ (forall x y, lu_of (asset s') x y = lu_of (asset s) x y) /\
   (forall x y, lu_of (share s') x y = lu_of (share s) x y).
 Proof.
-  unfold withdraw_internal. intros H. bsplit H s0 E0. bsplit H s1 E1. bsplit H a1 E2. inversion H; subst s'; clear H.
+  unfold withdraw_internal. intros H. bsplit H s0 E0. bsplit H s1 E1. bsplit H uc Ec. bsplit H a1 E2. inversion H; subst s'; clear H.
   apply tok_transfer_ok in E2. destruct E2 as (_ & _ & ->). apply update_burn in E1. destruct E1 as (_ & ->).
   cbn [now asset share]. split; [reflexivity|]. split; [intros; reflexivity|].
   intros x y. unfold lu_of. cbn [allow]. destruct (negb (N.eqb o ow)).
@@ -51,7 +51,7 @@ Lemma step_res_frame c s cl s' o : step_res c s cl = Ok (s', o) ->
   (forall a b, lu_of (share s') a b =
      match cl with SApprove ow sp _ l _ => upd2z (lu_of (share s)) ow sp l a b | _ => lu_of (share s) a b end).
 Proof.
-  intros H. destruct cl as [a r f op au|x r f op au|a r ow op au|x r ow op au|f t a au|t a|ow sp a l au|f t a au|sp f t a au|ow sp a l au|k|q];
+  intros H. destruct cl as [a r f op au|x r f op au|a r ow op au|x r ow op au|f t a au|t a|ow sp a l au|f t a au|sp f t a au|ow sp a l au|k|q|sa|so];
     cbn [step_res] in H.
   - unfold deposit in H. bsplit H u E0. bsplit H u1 E1. bsplit H sh E2. bsplit H s0 E3. inversion H; subst.
     apply (deposit_internal_frame _ _ _ _ _ _ _ _ _ E3).
@@ -83,4 +83,8 @@ Proof.
     destruct (N.eqb x ow && N.eqb y sp); reflexivity.
   - bsplit H u Eg. inversion H; subst. repeat split; intros; reflexivity.
   - bsplit H v Eqq. inversion H; subst. repeat split; intros; reflexivity.
+  - bsplit H s1 E. inversion H; subst. unfold vault_set_asset in E. destruct (v_asset s); inversion E; subst.
+    repeat split; intros; reflexivity.
+  - bsplit H s1 E. inversion H; subst. unfold vault_set_decimals_offset in E. bsplit E u Eg.
+    destruct (v_off s); inversion E; subst. repeat split; intros; reflexivity.
 Qed.
